@@ -48,6 +48,10 @@ def _g_huge(c, k, mu, sigma_squared, team, rank):
     return 1e12
 
 
+def _g_max(c, k, mu, sigma_squared, team, rank):
+    return 1e308  # finite, as the domain demands, and next to the largest double
+
+
 def _g_int(c, k, mu, sigma_squared, team, rank):
     return 1
 
@@ -72,6 +76,7 @@ GAMMAS = {
     "invk": _g_invk,
     "rank": _g_rank,
     "sqrt": _g_sqrt,
+    "max": _g_max,
 }
 
 
@@ -410,12 +415,16 @@ class League:
                 self.save(n)
 
 
-def rate_kwargs(op):
+def rate_kwargs(op, distinct=False):
+    """The keyword arguments of a rate call, decoded.  Numbers that compare equal are the SAME
+    object in the call under test and DISTINCT objects in a reference execution (`distinct`):
+    results must not depend on the identity of the numbers passed, and both patterns are a
+    pure function of the op, so a run and its replay from JSON agree."""
     kw = {}
     if "ranks" in op:
-        kw["ranks"] = dec_outcome(op["ranks"])
+        kw["ranks"] = dec_outcome(op["ranks"], distinct)
     if "scores" in op:
-        kw["scores"] = dec_outcome(op["scores"])
+        kw["scores"] = dec_outcome(op["scores"], distinct)
     if "tau" in op:
         kw["tau"] = dec(op["tau"])
     if "limit_sigma" in op:
@@ -423,8 +432,20 @@ def rate_kwargs(op):
     return kw
 
 
-def dec_outcome(v):
-    return [dec(x) for x in v]
+def dec_outcome(v, distinct=False):
+    out = []
+    shared = {}
+    for x in v:
+        y = dec(x)
+        if isinstance(y, bool):
+            out.append(y)
+        elif distinct:
+            # a fresh object per element (CPython only shares the small ints -5..256)
+            out.append(int(str(y)) if isinstance(y, int) else float.fromhex(y.hex()) if y == y else y)
+        else:
+            key = (type(y).__name__, y if y == y else "nan", str(y))
+            out.append(shared.setdefault(key, y))
+    return out
 
 
 def do_predict(model, kind, teams):
